@@ -5,6 +5,7 @@ mod common;
 mod strings;
 mod suite_entity;
 mod suite_forest;
+mod suite_fspec;
 mod suite_rt;
 mod idmap_hist;
 mod idmap_oracle;
@@ -30,6 +31,7 @@ fn main() {
         "entity" => suite_entity::run(seed, count, tier, &mut sink),
         "tree" => suite_tree::run(seed, count, tier, &mut sink),
         "forest" => suite_forest::run(seed, count, tier, &mut sink),
+        "fspec" => suite_fspec::run(seed, count, tier, &mut sink),
         "rt" => suite_rt::run(seed, count, tier, &mut sink),
         "idmap" => suite_idmap::run(seed, count, tier, &mut sink),
         _ => {
